@@ -1,6 +1,42 @@
-(* C18 — placeholder while the invariants are being proved (see Proofs/ExecProofs.v). *)
-From Coq Require Import List.
-From FB Require Import Model.Exec.
-Example C18_model_runs : exists nt s, run nt 1 (init nt) nil = Ok s.
-Proof. exists nil, (init nil). reflexivity. Qed.
-Print Assumptions C18_model_runs.
+(* C18 — A failed source is re-created and restarted; a finished source ends the run.
+   Model: Model/Exec.v (source supervisor: SRunning k / SSleeping k / SClosed; trace events
+   TPrep k = new instance created + Init + Setup, TStart k, TEnd k ok).  Proofs in Proofs/ExecMain.v.
+   That the same parameters and the same output channel are used every time is part of the harness
+   observation (harness/e1: every incarnation's Setup receives the case's channel), not of the model. *)
+From Coq Require Import List ZArith Arith Bool.
+From FB Require Import Model.Exec Model.ExecInv Proofs.ExecMain.
+Import ListNotations.
+
+(* For EVERY schedule: the source events of the trace are exactly, oldest first,
+     Prep 0, Start 0, End 0 err, Prep 1, Start 1, End 1 err, ..., Prep k, Start k [, End k nil]
+   — every incarnation is prepared (created, Init, Setup) before it is started, started exactly once,
+   a new one exists only after the previous one returned an error, and a nil return is the last event. *)
+Theorem C18_source_history : forall nt T s, reachable nt T s ->
+  match src s with
+  | SRunning k => src_evs (tr s) = TStart k :: TPrep k :: failed k
+  | SSleeping k => src_evs (tr s) = failed (S k)
+  | SClosed => exists k, src_evs (tr s) = TEnd k true :: TStart k :: TPrep k :: failed k
+  end.
+Proof. exact source_history_reachable. Qed.
+
+(* a nil return ends the run: no restart, no further emission, in any schedule *)
+Theorem C18_nil_is_final : forall nt T s a,
+  src s = SClosed -> src_action a = true \/ (exists e, a = SrcEmit e) -> step nt T s a = NotEnabled.
+Proof. exact source_closed_is_final. Qed.
+
+(* events enter the pipeline only from an incarnation that is inside Start() *)
+Theorem C18_emit_needs_running : forall nt T s e s',
+  step nt T s (SrcEmit e) = Ok s' -> exists k, src s = SRunning k /\ src s' = SRunning k.
+Proof. exact emit_needs_running. Qed.
+
+(* the stream is the union over incarnations: the conservation laws of C01-C03 (Props/C01.v ...) are
+   stated over the whole trace and never mention incarnations. *)
+
+Example C18_two_failures_then_nil :
+  exists s, run [] 1 (init []) [SrcReturnErr; SrcRestart; SrcReturnErr; SrcRestart; SrcReturnNil] = Ok s
+            /\ src_evs (tr s) = TEnd 2 true :: TStart 2 :: TPrep 2 :: failed 2.
+Proof. eexists. split; [vm_compute; reflexivity|reflexivity]. Qed.
+
+Print Assumptions C18_source_history.
+Print Assumptions C18_nil_is_final.
+Print Assumptions C18_emit_needs_running.
